@@ -1,1 +1,3 @@
-
+pub mod common;
+pub mod num;
+pub mod props;
